@@ -238,6 +238,12 @@ class Scheduler:
                 t.sem.release()
         self._done.set()
 
+    def stop(self, reason='stopped'):
+        """end the run from inside a managed thread (e.g. the program under test called sys.exit while daemon threads
+        are still looping): every other thread is unwound with SchedAbort; the caller simply returns afterwards"""
+        if not self.aborting:
+            self._abort(reason)
+
     # ---- API for primitives
     def yield_(self, label):
         me = self.me()
